@@ -114,6 +114,8 @@ TraceEnd ==
   /\ IsEv("endcase")
   /\ \/ status # "run"
      \/ done = Len(todo)
+     \* the code itself stopped at the previous step (a difference the `status` clause of that step has recorded)
+     \/ (l > 1 /\ Trace[l - 1].ev = "step" /\ Trace[l - 1].status # "run")
   /\ UNCHANGED <<cid, viol, drift, merr, ncases, pvars>>
 
 TraceEof ==
